@@ -56,6 +56,9 @@ static std::string show_parts(const Parts& parts) {
     return o;
 }
 
+// results computed in floating point with a rounded step (linspace) are marked "ok~": compared at float32 resolution
+static std::string approx(std::string r) { if (r.rfind("ok ", 0) == 0) r = "ok~" + r.substr(2); return r; }
+
 static std::string handle(const Case& c) {
     const std::string& op = c.op;
     auto kind = [&](size_t i) { return c.args[i].raw.substr(2); };
@@ -188,8 +191,8 @@ static std::string handle(const Case& c) {
     if (op == "arange_e") { return show(na::arange((int)c.args[0].val, (int)c.args[1].val, (int)c.args[2].val, nm::int64)); }
     if (op == "linspace") {        // linspace I:start I:stop I:num I:endpoint   (double)
         double start = (double)c.args[0].val, stop = (double)c.args[1].val; size_t num = (size_t)c.args[2].val;
-        if (c.args[3].val) return show(view::linspace(start, stop, num, nm::True));
-        return show(view::linspace(start, stop, num, nm::False));
+        if (c.args[3].val) return approx(show(view::linspace(start, stop, num, nm::True)));
+        return approx(show(view::linspace(start, stop, num, nm::False)));
     }
     return "unsupported";
 }
